@@ -227,6 +227,72 @@ func rulePredLocal(p *Prog, r *Report) {
 		r.Bad(rule, n, "loop over the conditions", p.Pos(fn.Pos()), "no loop over the sub-key conditions found")
 		return
 	}
+	// the conditions are judged independently of each other: the map of conditions is ranged over in random order, so nothing a
+	// condition's test reads may be carried over from the condition visited before it (a flag set for a "!key" condition and not
+	// reset makes the conditions after it negated as well — for some iteration orders)
+	carried := ""
+	for _, in := range hdr.Instrs {
+		ph, ok := in.(*ssa.Phi)
+		if !ok {
+			break
+		}
+		backVaries := false
+		for i, pr := range hdr.Preds {
+			if hdr.Dominates(pr) && ph.Edges[i] != ssa.Value(ph) {
+				backVaries = true
+			}
+		}
+		if !backVaries || ph.Referrers() == nil {
+			continue
+		}
+		// the carried value and the merges inside the loop that may still hold it
+		set := map[ssa.Value]bool{ph: true}
+		for changed := true; changed; {
+			changed = false
+			for v := range set {
+				if v.Referrers() == nil {
+					continue
+				}
+				for _, ref := range *v.Referrers() {
+					if q, ok := ref.(*ssa.Phi); ok && !set[q] && inLoop(q.Block()) {
+						set[q] = true
+						changed = true
+					}
+				}
+			}
+		}
+		for v := range set {
+			if v.Referrers() == nil {
+				continue
+			}
+			for _, ref := range *v.Referrers() {
+				ri, ok := ref.(ssa.Instruction)
+				if !ok || !inLoop(ri.Block()) {
+					continue
+				}
+				switch x := ref.(type) {
+				case *ssa.Phi:
+					// carried on: not a use
+				case *ssa.BinOp:
+					// acc = acc && c / acc || c : an accumulator update, not a use in a test
+					if x.Op != token.AND && x.Op != token.OR {
+						carried = p.Pos(x.Pos())
+					}
+				case *ssa.DebugRef:
+				default:
+					carried = p.Pos(ri.Pos())
+					if !ri.Pos().IsValid() {
+						carried = p.Pos(firstPos(ri.Block()))
+					}
+				}
+			}
+		}
+	}
+	if carried == "" {
+		r.OK(rule, n, "conditions judged independently", p.Pos(fn.Pos()), "no value carried from one iteration of the condition loop to the next is read inside the loop")
+	} else {
+		r.Bad(rule, n, "conditions judged independently", carried, "a value carried over from the previously visited condition is read while the current one is judged (at "+carried+"): the outcome depends on the order in which the conditions are visited, which is random for a map")
+	}
 	ord := newOrdinals()
 	cnt := 0
 	eachInstr(fn, func(b *ssa.BasicBlock, in ssa.Instruction) {
